@@ -16,6 +16,16 @@ def sim_part(run, exe_unused, results, env):
              "sim_k2_wwrt": [P("L", "U", "L", "U"), P("L", "U", "R", "RU"), P("R", "RU", "L", "U"), P("T", "RT", "L", "U")]}
     fam = [(n, dict(progs=p, NV=1, K=K2, kthr=K2, _sim=(num, 700))) for n, p in progs.items()]
     run_family(run, exe2, "C02", fam, env=env, workers=4, parallel=2)
+    # finding 6.9 (a timed-out conditional waiter that was woken as designated waker spun for ever on MU_LONG_WAIT set by a sleeping long
+    # waiter): the generated program it was found with, kept as a fixed scenario of the K = 2 build
+    import genprog
+    conf = dict(genprog.gen(100021, "C02"), kthr=K2)
+    res = run_harness_env(exe2, ["random", "3000" if run.tier == "quick" else "60000", str(seed()), muconf.init_line(conf), REPLAYS], dict(os.environ, VERIF_PROP="C02"))
+    run.add("evaluations", 3000 if run.tier == "quick" else 60000)
+    run.cov.setdefault("random", []).append({"program": "K=2: reader/writer lockers + timed conditional waiter + setter (6.9)", "threads": len(conf["progs"]), "violations": len(res["viols"])})
+    for v in res["viols"]:
+        if v[0] in ("O-prog", "O-crash"):
+            run.violation("%s|%s|k2 timed waiter" % (v[0], v[1]), v[4], v[5])
     pool_part(run)
     run.cov["simulated_configurations"] = {"K": K2, "behaviours_per_worker": num, "workers": 4, "depth": 700}
 
